@@ -7,13 +7,16 @@
  * Loop over the n tags: loop contract from the unit table (no /repo edit). */
 #define EL_GEJ_ADD_GE_VAR
 #define EL_GEJ_ADD_GE_VAR_LOG
-#define EL_BORROMEAN_VERIFY   /* only for the shared ghost index g_el_i */
+#define EL_GHOST_INDEX
 #include "assumed_elements.h"
 #include "src/secp256k1.c"
 #include "post.h"
 
 /* specification table read by the loop invariant: verif_sj_rank[t] = number of set bitmap bits below position t */
 size_t verif_sj_rank[257];
+/* operands the specification demands for the key at ring position g_el_i (computed by the harness with the
+ * library's own decoding, read by the loop invariant) */
+secp256k1_gej verif_sj_ea; secp256k1_ge verif_sj_eb;
 
 #ifndef VERIF_NATIVE
 static wide modp(wide v) { wide p = P_(); return v >= p + p ? v - p - p : (v >= p ? v - p : v); }
@@ -34,6 +37,11 @@ void h_sjp_pubkeys(void) {
     g_el_i = gi; g_aj_n = 0; g_aj_seen = 0;
     /* position of the gi-th selected input */
     for (t = 0; t < 256; t++) if (t < n_tags && ((used.b[t / 8] >> (t % 8)) & 1) && verif_sj_rank[t] == gi) { idx = t; found = 1; }
+    if (found) {   secp256k1_ge tg;      /* key_j = (-tag_{i_j}) + output, operands built the way the library decodes tag objects */
+        secp256k1_generator_load(&tg, &tags[idx]);
+        secp256k1_ge_neg(&tg, &tg); secp256k1_gej_set_ge(&verif_sj_ea, &tg);
+        secp256k1_generator_load(&verif_sj_eb, &outtag);
+    }
 #ifdef PK_RING      /* the prover's call; the verifier passes NULL (the loop contract names *ring_input_index only here) */
     __CPROVER_assume(use_ring);
     ret = secp256k1_surjection_compute_public_keys(pubkeys, n_pub, tags, n_tags, used.b, &outtag, input_index, &ring);
@@ -50,8 +58,9 @@ void h_sjp_pubkeys(void) {
         __CPROVER_assert(g_aj_roff == gi * sizeof(secp256k1_gej), "C11 compute_public_keys: key number j is stored at ring position j");
 #ifndef VERIF_NATIVE
         {   secp256k1_ge tg, og; secp256k1_generator_load(&tg, &tags[idx]); secp256k1_generator_load(&og, &outtag);
-            __CPROVER_assert(!g_aj_a.infinity && fval(&g_aj_a.z) == 1 && modp(fval(&g_aj_a.x)) == modp(fval(&tg.x)) && modp(fval(&g_aj_a.y) + fval(&tg.y)) == 0, "C11 compute_public_keys: first operand of key j is the negated j-th selected input tag");
-            __CPROVER_assert(!g_aj_b.infinity && modp(fval(&g_aj_b.x)) == modp(fval(&og.x)) && modp(fval(&g_aj_b.y)) == modp(fval(&og.y)), "C11 compute_public_keys: second operand of key j is the output tag");
+            __CPROVER_assert(GEJ_EQ(g_aj_a, verif_sj_ea) && GE_EQ(g_aj_b, verif_sj_eb), "C11 compute_public_keys: key j is computed from the operands the specification demands");
+            __CPROVER_assert(!verif_sj_ea.infinity && fval(&verif_sj_ea.z) == 1 && modp(fval(&verif_sj_ea.x)) == modp(fval(&tg.x)) && modp(fval(&verif_sj_ea.y) + fval(&tg.y)) == 0, "C11 compute_public_keys: first operand of key j is the negated j-th selected input tag");
+            __CPROVER_assert(!verif_sj_eb.infinity && modp(fval(&verif_sj_eb.x)) == modp(fval(&og.x)) && modp(fval(&verif_sj_eb.y)) == modp(fval(&og.y)), "C11 compute_public_keys: second operand of key j is the output tag");
         }
 #endif
     }
